@@ -318,16 +318,11 @@ def samplePool : List Bytes := addAll [] (sceneStrs sampleScene)
 example : decodeScene samplePool (encScene (poolIndex samplePool) sampleScene)
     = some (quantScene sampleScene) ∧ quantScene sampleScene ≠ sampleScene := by decide +kernel
 
-example : strOK (poolIndex samplePool) samplePool [0x61] ∧ tagsOK (poolIndex samplePool) samplePool
-    [{ name := [0x74], value := (127, 2) }] ∧ rampOK sampleScene.ramp := by
-  refine ⟨by decide +kernel, ⟨by decide, ?_⟩, ⟨by decide, ?_⟩⟩
-  · intro t ht
-    simp only [List.mem_cons, List.not_mem_nil, or_false] at ht
-    subst ht
-    decide +kernel
-  · intro r hr
-    simp only [sampleScene, List.mem_cons, List.not_mem_nil, or_false] at hr
-    rcases hr with rfl | rfl <;> (unfold f32; decide)
+/-- the hypotheses of `C20_bvcd` are met by the sample scene with its own pool. -/
+theorem C20_bvcd_sample_ok : sceneOK (poolIndex samplePool) samplePool sampleScene := by decide +kernel
+
+example : decodeScene samplePool (encScene (poolIndex samplePool) sampleScene ++ [1, 2, 3])
+    = some (quantScene sampleScene) := C20_bvcd _ _ _ C20_bvcd_sample_ok _
 
 end Bvcd
 
